@@ -68,6 +68,13 @@ var additions = map[string]func(c *vm.Ctx){
 			checkCarrierStreams(c, r, g)
 		}
 	},
+	"repeated-names": func(c *vm.Ctx) {
+		r := c.Rand("repeated-names")
+		g := nbtgen.New(r, carrierCfg())
+		for i := 0; i < c.Scale(2500, 50000); i++ {
+			checkRepeatedNameCarriers(c, r, g)
+		}
+	},
 	"together": func(c *vm.Ctx) {
 		r := c.Rand("together")
 		for i := 0; i < c.Scale(40, 800); i++ {
